@@ -8,6 +8,7 @@ import html
 import html.entities
 import json
 import re
+import sqlite3
 import traceback
 import unicodedata
 from collections import deque
@@ -840,7 +841,25 @@ def add_empty_sandbox_lua_module(wtp: "Wtp") -> None:
         (f"{ns_name}:_sandbox_phase1", ns_id),
     ).fetchone()
     if exists is None:
-        wtp.add_page(
-            f"{ns_name}:_sandbox_phase1", ns_id, body="", model="Scribunto"
-        )
-        wtp.db_conn.commit()
+        try:
+            wtp.add_page(
+                f"{ns_name}:_sandbox_phase1", ns_id, body="", model="Scribunto"
+            )
+            wtp.db_conn.commit()
+        except sqlite3.OperationalError:
+            # This connection holds a read snapshot (an unfinished
+            # get_all_pages() iteration) that another worker's commit has
+            # made stale; SQLite refuses to turn such a snapshot into a
+            # write ("database is locked", at once).  A connection of its
+            # own can write, and waits its turn if it has to.
+            conn = sqlite3.connect(wtp.db_path)
+            try:
+                conn.execute(
+                    """INSERT OR IGNORE INTO pages (title, namespace_id, body,
+                    redirect_to, need_pre_expand, model)
+                    VALUES (?, ?, '', NULL, 0, 'Scribunto')""",
+                    (f"{ns_name}:_sandbox_phase1", ns_id),
+                )
+                conn.commit()
+            finally:
+                conn.close()
